@@ -20,7 +20,10 @@ LimitRules ==
     [h |-> A("k", <<Var("V")>>), b |-> <<<<"pos", A("n", <<X>>)>>>>, t |-> <<"let", <<<<"V", Ap("fn:plus", <<X, N(1)>>)>>>>>>],
     R(A("n", <<X>>), <<<<"pos", A("k", <<X>>)>>>>),
     [h |-> A("cnt", <<Var("C")>>), b |-> <<<<"pos", A("n", <<X>>)>>>>, t |-> <<"do", <<>>, <<<<"C", "fn:count", <<>>>>>>>>],
-    R(A("q", <<X>>), <<<<"pos", A("n", <<X>>)>>, <<"neg", A("m", <<X>>)>>>>) }
+    R(A("q", <<X>>), <<<<"pos", A("n", <<X>>)>>, <<"neg", A("m", <<X>>)>>>>),
+    \* an aggregate whose head predicate is extended by a recursion of the same stratum (one new fact per round)
+    [h |-> A("n", <<Var("C")>>), b |-> <<<<"pos", A("m", <<X>>)>>>>, t |-> <<"do", <<>>, <<<<"C", "fn:count", <<>>>>>>>>],
+    [h |-> A("k", <<Var("C")>>), b |-> <<<<"pos", A("l", <<X>>)>>>>, t |-> <<"do", <<>>, <<<<"C", "fn:count", <<>>>>>>>>] }
 LimitEdbs ==
   { {A("n", <<N(0)>>)}, {A("n", <<N(0)>>), A("n", <<N(10)>>)}, {A("n", <<N(1)>>), A("l", <<List(<<>>)>>)},
     {A("l", <<List(<<N(2), N(3)>>)>>), A("l", <<List(<<>>)>>)}, {A("m", <<N(3)>>)} }
